@@ -80,6 +80,8 @@ HANDWRITTEN = [
     'forall i in xs: (exists j in ys: @i = @j)', 'max({x, 1, 2}) > 0', 'sum([1 to 3]) = 6', 'PI > 3', 'E < 3',
     '@A.z = x and @B.w > 1', 'not (p or q)', 'not (p implies q)', 'not not p', 'x * 2 = x', 'x / 2 != x',
     '(x = 1) and (forall i in xs: (@i > x and y > 0))', 'not (exists i in xs: @i = 0)',
+    '(forall i in xs: @i > 0) and y = @i', '(exists j in ys: @j = 1) or (forall k in {@j, 2}: @k > 0)',
+    'forall i in xs: (forall j in ys: (@i > @j and @j > x))',
     'x + 0 = x', '1 + 2 = 3', 'x - x = 0', 'x / x = 1', 'x * 0 = 0', '(p and q) and p', 'p or (q or p)',
 ]
 
@@ -153,6 +155,40 @@ def properties(seed=0):
         try:
             out.append(parser.parse(t))
         except Exception:
+            pass
+    _CACHE[key] = out
+    return out
+
+
+def api_events():
+    """events built through the API: every alias x reference placement over a small alphabet, simple and
+    two-way disjunctive (including alternatives that reference a sibling's alias)"""
+    key = ('api_events',)
+    if key in _CACHE:
+        return _CACHE[key]
+    from hpl.ast.events import HplSimpleEvent, HplEventDisjunction
+    from hpl.errors import HplSanityError
+    from hpl.parser import predicate_parser
+    pp = predicate_parser()
+    preds = {}
+    for refs in [(), ('A',), ('B',), ('A', 'B')]:
+        preds[refs] = pp.parse('{ x > 0' + ''.join(f' and @{r}.v > @{r}.w' for r in refs) + ' }')
+    simple = []
+    for i, al in enumerate([None, 'A', 'B']):
+        for rs in preds:
+            simple.append(HplSimpleEvent.publish(f't{i}{len(rs)}{"".join(rs)}', preds[rs], alias=al))
+    out = list(simple)
+    for e1 in simple[::2]:
+        for e2 in simple[1::3]:
+            try:
+                out.append(HplEventDisjunction(e1, e2))
+            except HplSanityError:
+                pass
+    if len(out) > 4:
+        try:
+            out.append(HplEventDisjunction(out[-1], simple[0]))
+            out.append(HplEventDisjunction(simple[5], out[-2]))
+        except HplSanityError:
             pass
     _CACHE[key] = out
     return out
